@@ -1802,6 +1802,10 @@ class Evaluator:
         self._loop_counter = max(self._loop_counter, sub_ev._loop_counter)
         if r.yields:
             return None
+        # a closure the helper defines and hands back (a factory of lookup functions) can be called by the caller
+        for ck, cv in sub_ev._closures.items():
+            if ck not in self._closures and any(_mentions_term(v, ("sym", "<closure %s>" % ck)) for _pc, v, _n in r.returns if v is not None):
+                self._closures[ck] = cv
         if res is not None:
             res.loops.extend(r.loops)
             res.objects.update(r.objects)
@@ -2196,3 +2200,11 @@ def make_evaluator(project, modname, inline_names=(), inline_local=False, no_inl
     ev = Evaluator(project, nts, inline, menv, local_module=modname if inline_local else None, no_inline=no_inline)
     ev.ctx_module = modname
     return ev
+
+
+def _mentions_term(t, x):
+    if t == x:
+        return True
+    if isinstance(t, tuple):
+        return any(_mentions_term(y, x) for y in t if isinstance(y, tuple))
+    return False
